@@ -74,14 +74,15 @@ def model_outputs(ctx, records, driver="Ident"):
 
 
 def compare_decl_flags(ctx, flagrecs, outs):
-    """the flags `ArgDecl.mkArg` derives from each declaration of a generated library vs the real `Argument` object"""
+    """the flags `ArgDecl.classArg` derives for each parameter of each class of a generated library (declaration resolved
+    through the bases by the model) vs the real `Argument` object"""
     for f, out in zip(flagrecs, outs):
         for c, mflags, iflags in zip(f["line"]["classes"], out.get("flags", []), f["impl"]["flags"]):
-            for d, m, im in zip(c["decls"], mflags, iflags):
-                ctx.count("declaration_flags_compared", d["kind"] + (":optional" if d["optional"] else "") + (":default" if d["attr"] else ""))
+            ctx.count("class_flags_compared", "several bases" if c.get("bases", 0) > 1 else "one base" if c.get("bases") else "no base")
+            for nm, m, im in zip(c["names"], mflags, iflags):
                 if m != im:
-                    ctx.disagree({"class": c["cls"], "declaration": d}, m, im,
-                                 "the flags the model derives from the declaration differ from the real Argument object")
+                    ctx.disagree({"class": c["cls"], "parameter": bytes.fromhex(nm).decode(), "table": f["line"]["table"]}, m, im,
+                                 f"the flags the model derives for the parameter (rule {out.get('rule')}) differ from the real Argument object")
 
 
 def permute_graph(rng, g):
@@ -175,6 +176,13 @@ def run_submit(ctx, libs, cases, shards=6):
             for (ci, _), r in zip(part, f.result()):
                 recs[ci] = r
     return recs
+
+
+def inherit_rule_probe(ctx):
+    """for translate/argflags: () -> "depthFirst" | "mro" | "neither: …" read off the real code on a diamond"""
+    def probe():
+        return run_worker({}, ctx.tmpdir(), "inhprobe", None, "xv.impl.inherit_probe")["rule"]
+    return probe
 
 
 def loop_flag_probe(ctx):
